@@ -178,6 +178,74 @@ theorem delivers : DeliversStatement := by
   subst hwk
   exact ⟨x, h2⟩
 
+/-- **stale advertised height** (review item): `availbTask` skips a peer whose height in the PeerInfoManager is below
+the requested one. A peer that does serve the height but whose advertised height is stale is therefore never
+asked: the worker sleeps through its 50 tries — in the concurrent pass and in checkTask's pass alike. `delivers`
+above assumes every advertised height covers the request (`h ≤ 1000000`, the default of `init`); this is the witness
+that the assumption is needed (the node cannot know better: the advertised height is all it has). -/
+theorem stale_advertised_height_never_asked :
+    ((runAlone (fun _ h => some h) 200 (initWith 1 [9] (fun _ => 8))).workers.map fun w => (w.phase, w.asked)) =
+      [(.tooMany, [])] ∧
+    eventDelivers (fun _ h => some h) 1 9 (fun _ => 8) .tooMany = false := by decide
+
+/-- **the download event as a whole** (concurrent pass, then checkTask's single re-download of what is left): a
+height served by one of at most 50 peers, all advertising a sufficient height, is delivered — however the
+concurrent pass ended for it. -/
+theorem event_delivers (beh : Behaviour) (n : Nat) (h : Int) (p : Nat) (first : Phase)
+    (hn : n ≤ 50) (hh : h ≤ 1000000) (hp : p < n) (hb : beh p h = some h) :
+    eventDelivers beh n h (fun _ => 1000000) first = true := by
+  unfold eventDelivers
+  cases first with
+  | delivered _ _ => rfl
+  | _ =>
+    all_goals
+      have hinit : initWith n [h] (fun _ => 1000000) = init n [h] := rfl
+      have hd := delivers n beh h p hn hh hp hb 200 (by omega)
+      simp only [hinit]
+      match hw : (runAlone beh 200 (init n [h])).workers with
+      | [] =>
+        have hA : Alone (init n [h]) { height := h, view := List.range n } :=
+          ⟨rfl, rfl, fun _ => rfl, fun _ => by simpa [init] using hh⟩
+        obtain ⟨pre, x, post, hsplit, hpre, hx⟩ := first_split (fun x => beh x h = some h) (List.range n) ⟨p, by simpa using hp, hb⟩
+        have hlen : pre.length < n := by have := congrArg List.length hsplit; simp at this; omega
+        obtain ⟨wk', h1, _⟩ := seq_delivers beh (init n [h]) _ pre x post 200 hA hsplit hpre hx (by simp; omega) (by omega)
+        rw [hw] at h1; simp at h1
+      | [wk] =>
+        obtain ⟨q, hq⟩ := hd wk (by rw [hw]; simp)
+        simp [hq]
+      | _ :: _ :: _ =>
+        have hA : Alone (init n [h]) { height := h, view := List.range n } :=
+          ⟨rfl, rfl, fun _ => rfl, fun _ => by simpa [init] using hh⟩
+        obtain ⟨pre, x, post, hsplit, hpre, hx⟩ := first_split (fun x => beh x h = some h) (List.range n) ⟨p, by simpa using hp, hb⟩
+        have hlen : pre.length < n := by have := congrArg List.length hsplit; simp at this; omega
+        obtain ⟨wk', h1, _⟩ := seq_delivers beh (init n [h]) _ pre x post 200 hA hsplit hpre hx (by simp; omega) (by omega)
+        rw [hw] at h1; simp at h1
+
+/-- the bound is needed: with 51 failing peers listed before the one that serves, both passes run out of their 50
+tries and the height is never delivered (checkTask ignores the error of its one re-download). p2p hands the
+blockchain at most 2·maxPeers+1 = 41 peers (handleEventPeerInfo), so the bound does not bind in a real node;
+the witness is replayed on the real code by the harness (52 fake peers). -/
+theorem event_needs_at_most_50_failing_peers :
+    eventDelivers (fun p h => if p < 51 then none else some h) 52 7 (fun _ => 1000000) .tooMany = false := by decide
+
+/-- **progress**: a worker that has not finished always has an enabled label — `pick` at ReDownload, `ret` (with any
+reply, the stream deadline producing `none` at the latest) while fetching; with `worker_terminates` every run ends. -/
+theorem progress (s : State) (w : Nat) (wk : Worker) (hw : s.workers[w]? = some wk) :
+    (wk.phase = .ready → (step s (.pick w)).isSome = true) ∧
+    (∀ p, wk.phase = .fetching p → ∀ reply, (step s (.ret w reply)).isSome = true) := by
+  constructor
+  · intro hr
+    simp only [step, hw, hr]
+    simp only [ne_eq, not_true_eq_false, if_false]
+    split
+    · rfl
+    · split
+      · rfl
+      · split <;> rfl
+  · intro p hp reply
+    simp only [step, hw, hp]
+    split <;> rfl
+
 /-- non-vacuity: four peers, the first fails, the second answers with another height, the third serves -/
 example : ((runAlone (fun p h => if p = 0 then none else if p = 1 then some (h + 1) else some h) 10 (init 4 [9])).workers.map
     fun w => (w.phase, w.asked)) = [(.delivered 2 9, [2, 1, 0])] := by decide
